@@ -16,6 +16,7 @@ import (
 	"regexp"
 	"regexp/syntax"
 	"strings"
+	"unicode"
 )
 
 type reUnsupported struct{ msg string }
@@ -188,6 +189,15 @@ func (ex *exec) reMatchValue(pattern string, subject value) value {
 	if _, err := regexp.Compile(pattern); err != nil {
 		ex.unsupported("regexp: pattern does not compile: " + err.Error())
 	}
+	if cs, ok := charSeq(termOf(subject)); ok {
+		// subject of known length: simulate the compiled program, no string theory needed
+		mt, err := reMatchSeq(pattern, cs)
+		if err != nil {
+			ex.unsupported("regexp.MatchString on symbolic subject: " + err.Error())
+		}
+		ex.res.Stubs["regexp.MatchString(symbolic character sequence)->program simulation"]++
+		return boolV(mt)
+	}
 	rt, err := reSearchTerm(pattern)
 	if err != nil {
 		ex.unsupported("regexp.MatchString on symbolic subject: " + err.Error())
@@ -252,4 +262,140 @@ func (ex *exec) concretizeArgs(args []value, what string) []value {
 		out[i] = ex.concretize(a, what)
 	}
 	return out
+}
+
+// ---------------------------------------------------------------- regexp over character sequences
+
+// reMatchSeq decides regexp.MatchString(pattern, s) for a subject that is a
+// sequence of KNOWN length whose characters are integer code terms: Go's own
+// compiled program (regexp/syntax.Prog) is simulated Pike-style with a boolean
+// term per (program counter, position). The result is a plain Bool term over
+// integer comparisons - no string theory - which the solver decides quickly.
+func reMatchSeq(pattern string, cs []*Term) (t *Term, err error) {
+	defer func() {
+		if r := recover(); r != nil {
+			if u, ok := r.(reUnsupported); ok {
+				err = fmt.Errorf("%s", u.msg)
+				return
+			}
+			panic(r)
+		}
+	}()
+	re, perr := syntax.Parse(pattern, syntax.Perl)
+	if perr != nil {
+		return nil, perr
+	}
+	prog, cerr := syntax.Compile(re.Simplify())
+	if cerr != nil {
+		return nil, cerr
+	}
+	n := len(cs)
+	isNL := func(i int) *Term { return tEq(cs[i], mkInt64('\n')) }
+	// condition under which the empty-width assertion op holds at position i
+	emptyOK := func(op syntax.EmptyOp, i int) *Term {
+		c := tTrue
+		if op&syntax.EmptyBeginText != 0 && i != 0 {
+			return tFalse
+		}
+		if op&syntax.EmptyEndText != 0 && i != n {
+			return tFalse
+		}
+		if op&syntax.EmptyBeginLine != 0 && i != 0 {
+			c = tAnd(c, isNL(i-1))
+		}
+		if op&syntax.EmptyEndLine != 0 && i != n {
+			c = tAnd(c, isNL(i))
+		}
+		if op&(syntax.EmptyWordBoundary|syntax.EmptyNoWordBoundary) != 0 {
+			panic(reUnsupported{"regexp word boundary with a symbolic subject"})
+		}
+		return c
+	}
+	matchRune := func(in *syntax.Inst, x *Term) *Term {
+		switch in.Op {
+		case syntax.InstRuneAny:
+			return tTrue
+		case syntax.InstRuneAnyNotNL:
+			return tNot(tEq(x, mkInt64('\n')))
+		}
+		runes := in.Rune
+		if len(runes) == 1 {
+			r0 := runes[0]
+			alts := []*Term{tEq(x, mkInt64(int64(r0)))}
+			if syntax.Flags(in.Arg)&syntax.FoldCase != 0 {
+				for r1 := unicode.SimpleFold(r0); r1 != r0; r1 = unicode.SimpleFold(r1) {
+					alts = append(alts, tEq(x, mkInt64(int64(r1))))
+				}
+			}
+			return tOr(alts...)
+		}
+		var alts []*Term
+		for j := 0; j+1 < len(runes); j += 2 {
+			lo, hi := runes[j], runes[j+1]
+			if lo == hi {
+				alts = append(alts, tEq(x, mkInt64(int64(lo))))
+			} else {
+				alts = append(alts, tAnd(tCmp("<=", mkInt64(int64(lo)), x), tCmp("<=", x, mkInt64(int64(hi)))))
+			}
+		}
+		return tOr(alts...)
+	}
+	var matched []*Term
+	// threads alive before consuming character i: pc -> condition
+	cur := map[uint32]*Term{}
+	order := []uint32{}
+	// seen: the conditions a pc was already visited with in this closure walk (an epsilon
+	// cycle comes back with the same condition and stops; a different condition is a
+	// different way to get there and is OR-ed in)
+	var add func(set map[uint32]*Term, ord *[]uint32, pc uint32, cond *Term, i int, seen map[uint32][]string)
+	add = func(set map[uint32]*Term, ord *[]uint32, pc uint32, cond *Term, i int, seen map[uint32][]string) {
+		if cond.isConst() && !cond.b {
+			return
+		}
+		for _, k := range seen[pc] {
+			if k == cond.key {
+				return
+			}
+		}
+		if len(seen[pc]) >= 4 {
+			panic(reUnsupported{"regexp closure too deep for the program simulation"})
+		}
+		seen[pc] = append(seen[pc], cond.key)
+		in := &prog.Inst[pc]
+		switch in.Op {
+		case syntax.InstFail:
+		case syntax.InstAlt, syntax.InstAltMatch:
+			add(set, ord, in.Out, cond, i, seen)
+			add(set, ord, in.Arg, cond, i, seen)
+		case syntax.InstCapture, syntax.InstNop:
+			add(set, ord, in.Out, cond, i, seen)
+		case syntax.InstEmptyWidth:
+			add(set, ord, in.Out, tAnd(cond, emptyOK(syntax.EmptyOp(in.Arg), i)), i, seen)
+		case syntax.InstMatch:
+			matched = append(matched, cond)
+		default: // consuming instructions
+			if old, ok := set[pc]; ok {
+				set[pc] = tOr(old, cond)
+			} else {
+				set[pc] = cond
+				*ord = append(*ord, pc)
+			}
+		}
+	}
+	for i := 0; i <= n; i++ {
+		// unanchored search: a new attempt starts at every position
+		add(cur, &order, uint32(prog.Start), tTrue, i, map[uint32][]string{})
+		if i == n {
+			break
+		}
+		next := map[uint32]*Term{}
+		var nextOrder []uint32
+		for _, pc := range order {
+			in := &prog.Inst[pc]
+			c := tAnd(cur[pc], matchRune(in, cs[i]))
+			add(next, &nextOrder, in.Out, c, i+1, map[uint32][]string{})
+		}
+		cur, order = next, nextOrder
+	}
+	return tOr(matched...), nil
 }
